@@ -26,7 +26,7 @@ PROPS = {
         "assumptions": ["versions and epochs are u64 values; the tree-level bridge (a label cannot be shown both present and absent) is C05"],
     },
     "C05": {
-        "coq_deps": ["TreeFacts", "HashingFacts", "TreeComplete", "NonMemComplete"],
+        "coq_deps": ["TreeFacts", "HashingFacts", "TreeComplete", "NonMemComplete", "HistEnd", "DirSound", "DirSoundReach"],
         "steps": [
             {"sub": "trees", "quick": [0], "thorough": [1]},
         ],
@@ -203,7 +203,7 @@ PROPS = {
         "assumptions": ["versions and epochs are u64 values; the tree-level bridge (a label cannot be shown both present and absent) is C05"],
     },
     "C05": {
-        "coq_deps": ["TreeFacts", "HashingFacts", "TreeComplete", "NonMemComplete"],
+        "coq_deps": ["TreeFacts", "HashingFacts", "TreeComplete", "NonMemComplete", "HistEnd", "DirSound", "DirSoundReach"],
         "steps": [
             {"sub": "trees", "quick": [0], "thorough": [1]},
         ],
